@@ -158,7 +158,26 @@ Lemma check_all_len_no_panic {A} (g : A -> str) (f : str -> outcome unit) l p :
   (forall s q, f s <> Panic q) -> check_all (fun a => f (g a)) l <> Panic p.
 Proof. intros Hf H. apply check_all_panic in H. destruct H as (a & _ & H). exact (Hf _ _ H). Qed.
 
-Theorem prologue_no_panic trim r p : prologue trim r <> Panic p.
+Lemma check_fee_no_panic fee p : check_fee fee <> Panic p.
+Proof. unfold check_fee. destruct (check_parse_amount fee) eqn:E; try discriminate. intros _. exact (string_to_amount_no_panic _ _ E). Qed.
+
+Lemma check_witness_address_no_panic cd a st p : check_witness_address cd a st <> Panic p.
+Proof. unfold check_witness_address. destruct (c_addr cd a); try discriminate. apply check_no_panic. Qed.
+
+Lemma check_opt_witness_address_no_panic cd a p : check_opt_witness_address cd a <> Panic p.
+Proof. unfold check_opt_witness_address. destruct (0 <? lenZ a); [apply check_witness_address_no_panic|discriminate]. Qed.
+
+Lemma parse_binding_target_no_panic cd a p : parse_binding_target cd a <> Panic p.
+Proof. unfold parse_binding_target. destruct (is_valid_binding_target (c_addr cd a)); discriminate. Qed.
+
+Lemma sum_amounts_no_panic l : forall acc p, sum_amounts l acc <> Panic p.
+Proof.
+  induction l as [|a r IH]; intros acc p H; cbn [sum_amounts] in H; [discriminate|].
+  apply bind_panic in H. destruct H as [H|(v & _ & H)]; [exact (string_to_amount_no_panic _ _ H)|].
+  destruct (max_amount <? acc + v); [discriminate|exact (IH _ _ H)].
+Qed.
+
+Theorem prologue_no_panic trim cd r p : prologue trim cd r <> Panic p.
 Proof.
   assert (Hc : forall b c q, check b c <> Panic q) by apply check_no_panic.
   assert (Ha : forall s q, check_address_len s <> Panic q) by (intros; apply Hc).
@@ -176,13 +195,25 @@ Proof.
            | H : check_not_empty _ = Panic _ |- _ => exact (Hc _ _ _ H)
            | H : check_amount_map _ _ = Panic _ |- _ => exact (check_amount_map_no_panic _ _ _ H)
            | H : check_parse_amount _ = Panic _ |- _ => exact (string_to_amount_no_panic _ _ H)
+           | H : check_fee _ = Panic _ |- _ => exact (check_fee_no_panic _ _ H)
+           | H : check_witness_address _ _ _ = Panic _ |- _ => exact (check_witness_address_no_panic _ _ _ _ H)
+           | H : check_opt_witness_address _ _ = Panic _ |- _ => exact (check_opt_witness_address_no_panic _ _ _ H)
+           | H : parse_binding_target _ _ = Panic _ |- _ => exact (parse_binding_target_no_panic _ _ _ H)
+           | H : sum_amounts _ _ = Panic _ |- _ => exact (sum_amounts_no_panic _ _ _ H)
            | H : Ok _ = Panic _ |- _ => discriminate H
            end.
   - (* GetAddressBalance: addresses *) apply check_all_panic in H. destruct H as (a & _ & H). exact (Ha _ _ H).
   - (* GetUtxo *) apply check_all_panic in H. destruct H as (a & _ & H). exact (Ha _ _ H).
   - (* TxHistory *) destruct (0 <? lenZ addr); [exact (Ha _ _ H)|discriminate].
   - (* CreateRawTransaction: txids *) apply check_all_panic in H. destruct H as (a & _ & H). exact (Ht _ _ H).
-  - (* AutoCreate: fee *) destruct (check_parse_amount fee) eqn:E; try discriminate. exact (string_to_amount_no_panic _ _ E).
+  - (* CreateBindingTransaction: the outputs *)
+    apply check_all_panic in H. destruct H as (o & _ & H).
+    apply bind_panic in H. destruct H as [H|(u & _ & H)]; [exact (check_witness_address_no_panic _ _ _ _ H)|].
+    apply bind_panic in H. destruct H as [H|(u' & _ & H)]; [exact (parse_binding_target_no_panic _ _ _ H)|].
+    apply bind_panic in H. destruct H as [H|(u'' & _ & H)]; [exact (string_to_amount_no_panic _ _ H)|discriminate].
+  - (* CreatePoolPkCoinbaseTransaction: the payload *)
+    destruct (decode_hex_strict payload); [exact (Hc _ _ _ H)|discriminate].
+  - (* CheckPoolPkCoinbase *) apply check_all_panic in H. destruct H as (a & _ & H). exact (Hc _ _ _ H).
 Qed.
 
 (* ---------------------------------------------------------------- txmgr: the current keystore *)
@@ -524,6 +555,162 @@ Proof.
   destruct (idx_panic _ _ _ _ H) as (_ & Hb). rewrite lenZ_repeat in Hb by lia. lia.
 Qed.
 
+(* ---------------------------------------------------------------- the second group: served transactions, histories, targets *)
+Lemma idx_repeat_no_panic q n i p : 0 <= i < n -> idx q (repeat tt (Z.to_nat n)) i <> Panic p.
+Proof.
+  intros Hr H. destruct (idx_panic _ _ _ _ H) as (_ & Hb). rewrite lenZ_repeat in Hb by lia. lia.
+Qed.
+
+Lemma tx_type_ins_no_panic ins p : Forall wf_bin ins -> tx_type_ins ins <> Panic p.
+Proof.
+  induction 1 as [|i r Hi _ IH]; cbn [tx_type_ins]; [discriminate|]. intros H.
+  destruct (bi_prev i) as [n|] eqn:E; [|discriminate].
+  apply bind_panic in H. destruct H as [H|(u & _ & H)]; [exact (idx_repeat_no_panic _ _ _ _ (Hi _ E) H)|].
+  destruct (bi_game i); [discriminate|exact (IH H)].
+Qed.
+
+Lemma vin_list_no_panic ins : forall sk p, Forall wf_bin ins -> vin_list sk ins <> Panic p.
+Proof.
+  induction ins as [|i r IH]; intros sk p Hw H; cbn [vin_list] in H; [discriminate|].
+  pose proof (Forall_inv Hw) as Hi. pose proof (Forall_inv_tail Hw) as Ht.
+  destruct sk; [exact (IH _ _ Ht H)|].
+  destruct (bi_prev i) as [n|] eqn:E; [|discriminate].
+  apply bind_panic in H. destruct H as [H|(u & _ & H)]; [exact (idx_repeat_no_panic _ _ _ _ (Hi _ E) H)|].
+  destruct (bi_addr_ok i); [exact (IH _ _ Ht H)|discriminate].
+Qed.
+
+Lemma create_block_tx_no_panic t p : wf_btx t -> create_block_tx t <> Panic p.
+Proof.
+  intros Hw H. unfold create_block_tx in H. apply bind_panic in H. destruct H as [H|(ty & _ & H)].
+  - unfold get_tx_type in H. destruct (bt_coinbase t); [discriminate|]. destruct (bt_game_out t); [discriminate|].
+    exact (tx_type_ins_no_panic _ _ Hw H).
+  - destruct (negb (bt_vout_ok t)); [discriminate|].
+    apply bind_panic in H. destruct H as [H|(u & _ & H)]; [exact (vin_list_no_panic _ _ _ Hw H)|].
+    destruct (bt_rest_ok t); discriminate.
+Qed.
+
+Lemma create_tx_raw_result_no_panic t p : wf_btx t -> create_tx_raw_result t <> Panic p.
+Proof.
+  intros Hw H. unfold create_tx_raw_result in H. destruct (negb (bt_vout_ok t)); [discriminate|].
+  apply bind_panic in H. destruct H as [H|(u & _ & H)]; [exact (vin_list_no_panic _ _ _ Hw H)|].
+  destruct (bt_rest_ok t); discriminate.
+Qed.
+
+Lemma marshal_block_no_panic b p : Forall wf_btx b -> marshal_block b <> Panic p.
+Proof.
+  intros Hw H. unfold marshal_block in H. apply check_all_panic in H. destruct H as (t & Ht & H).
+  rewrite Forall_forall in Hw. exact (create_block_tx_no_panic _ _ (Hw _ Ht) H).
+Qed.
+
+Lemma reward_outs_no_panic n nout p : n <= nout -> reward_outs n nout <> Panic p.
+Proof.
+  intros Hn H. unfold reward_outs in H. apply check_all_panic in H. destruct H as (j & Hj & H).
+  apply in_map_iff in Hj. destruct Hj as (k & <- & Hk). apply in_seq in Hk.
+  apply bind_panic in H. destruct H as [H|(u & _ & H)]; [|discriminate].
+  apply (idx_repeat_no_panic PRewardTxOut nout (Z.of_nat k) p); [lia|exact H].
+Qed.
+
+Lemma bind_froms_no_panic ins p : Forall wf_bin ins -> bind_froms ins <> Panic p.
+Proof.
+  induction 1 as [|i r Hi _ IH]; cbn [bind_froms]; [discriminate|]. intros H.
+  destruct (bi_prev i) as [n|] eqn:E; [|discriminate].
+  apply bind_panic in H. destruct H as [H|(u & _ & H)]; [exact (idx_repeat_no_panic _ _ _ _ (Hi _ E) H)|].
+  destruct (bi_addr_ok i); [exact (IH H)|discriminate].
+Qed.
+
+(* a row whose fetched transaction is the recorded one yields a detail with a binding target *)
+Lemma bind_detail_spec fx r : wf_bind_row r ->
+  (forall p, bind_detail fx r = Panic p -> p = PBindHistIndex /\ fx_bindhist_hash fx = false /\ br_mined r = true /\ br_same r = false) /\
+  (forall b r', bind_detail fx r = Ok (Some (b, r')) ->
+     r' = r /\ (b = false -> fx_bindhist_hash fx = false /\ br_mined r = true /\ br_same r = false)).
+Proof.
+  intros (_ & Hrow). unfold bind_detail. destruct (br_tx r) as [t|] eqn:T; [|split; intros; discriminate].
+  destruct (fx_bindhist_hash fx && br_mined r && negb (br_same r)) eqn:G; [split; intros; discriminate|].
+  assert (Hcase : (br_mined r = false \/ br_same r = true) \/ (fx_bindhist_hash fx = false /\ br_mined r = true /\ br_same r = false)).
+  { destruct (br_mined r), (br_same r), (fx_bindhist_hash fx); cbn in G; try discriminate; auto. }
+  destruct Hcase as [Hs|Hbad].
+  - destruct (Hrow Hs t eq_refl) as (Hv & Hn). rewrite (idx_nth _ _ _ _ Hv Hn). cbn [bind].
+    split; [intros; discriminate|]. intros b r' E. inversion E; subst. split; [reflexivity|discriminate].
+  - split.
+    + intros p H. apply bind_panic in H. destruct H as [H|(o & _ & H)].
+      * destruct (idx_panic _ _ _ _ H) as (-> & _). tauto.
+      * destruct o; discriminate.
+    + intros b r' H. apply bind_ok in H. destruct H as (o & _ & H). destruct o as [b0|]; [|discriminate].
+      inversion H; subst. split; [reflexivity|]. intros _. exact Hbad.
+Qed.
+
+Lemma bind_details_spec fx rows : Forall wf_bind_row rows ->
+  (forall p, bind_details fx rows = Panic p -> p = PBindHistIndex /\ fx_bindhist_hash fx = false /\ exists r, In r rows /\ br_mined r = true /\ br_same r = false) /\
+  (forall ds, bind_details fx rows = Ok ds -> forall b r, In (b, r) ds ->
+     In r rows /\ (b = false -> fx_bindhist_hash fx = false /\ br_mined r = true /\ br_same r = false)).
+Proof.
+  induction 1 as [|r rest Hr _ IH]; cbn [bind_details].
+  - split; [intros; discriminate|]. intros ds E; inversion E; subst. intros b r [].
+  - destruct (bind_detail_spec fx r Hr) as (Hp & Ho). destruct IH as (IHp & IHo). split.
+    + intros p H. apply bind_panic in H. destruct H as [H|(d & Hd & H)].
+      * destruct (Hp _ H) as (-> & Hf & Hm & Hs). split; [reflexivity|]. split; [exact Hf|]. exists r. split; [left; reflexivity|auto].
+      * apply bind_panic in H. destruct H as [H|(ds & _ & H)]; [|discriminate].
+        destruct (IHp _ H) as (-> & Hf & r0 & Hin & Hm & Hs). split; [reflexivity|]. split; [exact Hf|]. exists r0. split; [right; exact Hin|auto].
+    + intros ds H. apply bind_ok in H. destruct H as (d & Hd & H). apply bind_ok in H. destruct H as (ds' & Hds & H).
+      inversion H; subst. intros b r0 Hin. destruct d as [[b1 r1]|].
+      * destruct Hin as [E|Hin].
+        -- inversion E; subst. destruct (Ho _ _ Hd) as (-> & Hb). split; [left; reflexivity|exact Hb].
+        -- destruct (IHo _ Hds _ _ Hin) as (Hi & Hb). split; [right; exact Hi|exact Hb].
+      * destruct (IHo _ Hds _ _ Hin) as (Hi & Hb). split; [right; exact Hi|exact Hb].
+Qed.
+
+Lemma bind_history_entry_panic d p : Forall wf_bin (br_ins (snd d)) ->
+  bind_history_entry d = Panic p -> p = PBindHistTargetNil /\ fst d = false.
+Proof.
+  intros Hi H. unfold bind_history_entry in H.
+  apply bind_panic in H. destruct H as [H|(u & _ & H)].
+  { destruct (amount_to_string_p (br_amount (snd d))) eqn:E; try discriminate. exfalso. exact (amount_to_string_no_panic _ _ E). }
+  apply bind_panic in H. destruct H as [H|(u' & _ & H)].
+  { destruct (br_coinbase (snd d)); [discriminate|]. exfalso. exact (bind_froms_no_panic _ _ Hi H). }
+  destruct (fst d); [discriminate|]. inversion H. auto.
+Qed.
+
+(* GetBindingHistory: a panic needs the unrepaired code AND a mined row whose transaction the node no longer has at the recorded place *)
+Lemma get_binding_history_panic fx w rows p : Forall wf_bind_row rows ->
+  get_binding_history fx w rows = Panic p ->
+  (p = PBindHistIndex \/ p = PBindHistTargetNil) /\ fx_bindhist_hash fx = false /\
+  exists r, In r rows /\ br_mined r = true /\ br_same r = false.
+Proof.
+  intros Hw H. unfold get_binding_history in H. destruct (cur w); [|discriminate].
+  destruct (bind_details_spec fx rows Hw) as (Hp & Ho).
+  apply bind_panic in H. destruct H as [H|(ds & Hds & H)].
+  - destruct (Hp _ H) as (-> & Hf & Hr). auto.
+  - apply check_all_panic in H. destruct H as ([b r] & Hin & H).
+    destruct (Ho _ Hds _ _ Hin) as (Hir & Hb).
+    rewrite Forall_forall in Hw. destruct (Hw _ Hir) as (Hins & _).
+    destruct (bind_history_entry_panic (b, r) _ Hins H) as (-> & Hfalse). cbn in Hfalse.
+    destruct (Hb Hfalse) as (Hf & Hm & Hs). split; [auto|]. split; [exact Hf|]. exists r. auto.
+Qed.
+
+Lemma get_staking_history_no_panic w ok rows p : get_staking_history w ok rows <> Panic p.
+Proof.
+  unfold get_staking_history. destruct (negb ok); [discriminate|]. destruct (cur w); [|discriminate].
+  intros H. apply check_all_panic in H. destruct H as (a & _ & H).
+  destruct (amount_to_string_p a) eqn:E; try discriminate. exact (amount_to_string_no_panic _ _ E).
+Qed.
+
+(* CheckTargetBinding: a valid target that is not a pubkey hash is a 22-byte binding target *)
+Lemma check_target_no_panic trim cd e t p : check_target trim cd e t <> Panic p.
+Proof.
+  unfold check_target. destruct (c_addr cd (trim t)) eqn:A; cbn [is_valid_binding_target negb]; try discriminate.
+  - destruct (e_rest_ok e); discriminate.
+  - destruct (negb (e_rest_ok e)); [discriminate|]. cbn [script_len]. intros H.
+    apply bind_panic in H. destruct H as [H|(u & _ & H)]; [exact (idx_repeat_no_panic _ 22 20 _ ltac:(lia) H)|].
+    apply bind_panic in H. destruct H as [H|(u' & _ & H)]; [exact (idx_repeat_no_panic _ 22 21 _ ltac:(lia) H)|discriminate].
+Qed.
+
+(* a served transaction whose input names output 2 of a two-output transaction (never delivered by a validating node) *)
+Theorem serve_block_unchecked_refuted :
+  marshal_block [ {| bt_coinbase := false; bt_game_out := false;
+                     bt_ins := [ {| bi_prev := Some 2; bi_index := 2; bi_game := false; bi_addr_ok := true |} ];
+                     bt_vout_ok := true; bt_rest_ok := true |} ] = Panic PTxTypeIndex.
+Proof. reflexivity. Qed.
+
 (* ---------------------------------------------------------------- every request *)
 Lemma answer_no_panic e p : answer e <> Panic p.
 Proof. unfold answer. destruct (e_rest_ok e); discriminate. Qed.
@@ -532,12 +719,12 @@ Lemma inputs_ok_map trim inputs :
   inputs_ok inputs -> inputs_ok (map (fun i => {| in_txid := trim (in_txid i); in_vout := in_vout i |}) inputs).
 Proof. unfold inputs_ok. intros H. apply Forall_map. exact H. Qed.
 
-Theorem deep_panic_only_unfixed trim fx e w r p :
+Theorem deep_panic_only_unfixed trim cd fx e w r p :
   wf w -> wf_env e -> selected_ok w e -> req_ok r ->
-  deep trim fx e w r = Panic p -> guarded_by fx p = false.
+  deep trim cd fx e w r = Panic p -> guarded_by fx p = false.
 Proof.
-  intros Hw (Hna & Hhb) Hsel Hr H.
-  destruct r; cbn [deep req_ok] in H, Hr;
+  intros Hw (Hna & Hhb & Hblk & Hraw & Hrew & Hrows) Hsel Hr H.
+  destruct r; cbn [deep req_ok] in H, Hr; unfold auto_tx in H;
     try (exfalso; exact (answer_no_panic _ _ H)).
   - (* RemoveWallet *)
     apply bind_panic in H. destruct H as [H|(u & _ & H)]; [|exfalso; exact (answer_no_panic _ _ H)].
@@ -548,6 +735,11 @@ Proof.
   - (* ImportMnemonic *)
     apply bind_panic in H. destruct H as [H|(u & _ & H)]; [|exfalso; exact (answer_no_panic _ _ H)].
     destruct (task_queue_panic _ _ _ H) as (-> & Hf & _). exact Hf.
+  - (* ValidateAddress *)
+    unfold validate_address in H. destruct (c_addr cd addr); try discriminate;
+      (destruct (negb (evicted w) && match cur w with None => true | Some _ => false end); [discriminate|];
+       match type of H with (if ?c then _ else _) = _ => destruct c; [discriminate|] end;
+       destruct (evicted w); [destruct (fx_cur_evicted fx) eqn:F; [discriminate|inversion H; subst; exact F]|discriminate]).
   - (* GetAddressBalance *)
     apply bind_panic in H. destruct H as [H|(u & _ & H)]; [|exfalso; exact (answer_no_panic _ _ H)].
     destruct (wm_balance_panic _ _ _ _ _ H) as (-> & Hf). exact Hf.
@@ -566,6 +758,8 @@ Proof.
     destruct (cur w); [|discriminate]. destruct (get_tx_history_panic _ _ _ _ Hhb H) as (Hf & _).
     rewrite (get_tx_history_site _ _ _ _ H).
     exact Hf.
+  - (* GetRawTransaction *)
+    destruct (e_rawtx e) as [t|] eqn:E; [|discriminate]. exfalso. exact (create_tx_raw_result_no_panic _ _ (Hraw _ eq_refl) H).
   - (* CreateRawTransaction *)
     exact (wm_create_raw_transaction_panic _ _ _ _ _ _ Hw (inputs_ok_map trim _ Hr) H).
   - (* WalletManager.CreateRawTransaction *)
@@ -574,7 +768,11 @@ Proof.
   - (* CreateStakingTransaction *) destruct (cur w); [|discriminate]. exact (wm_auto_create_panic _ _ _ _ _ Hw Hsel H).
   - (* GetTransactionFee *)
     destruct (cur w); [|discriminate]. destruct inputs as [|i0 inputs'].
-    + exact (wm_auto_create_panic _ _ _ _ _ Hw Hsel H).
+    + apply bind_panic in H. destruct H as [H|(u & _ & H)]; [|exact (wm_auto_create_panic _ _ _ _ _ Hw Hsel H)].
+      exfalso. apply check_all_panic in H. destruct H as (kv & _ & H).
+      apply bind_panic in H. destruct H as [H|(u & _ & H)].
+      { destruct has_binding; [exact (check_witness_address_no_panic _ _ _ _ H)|discriminate]. }
+      apply bind_panic in H. destruct H as [H|(v & _ & H)]; [exact (string_to_amount_no_panic _ _ H)|discriminate].
     + apply bind_panic in H. destruct H as [H|(u & _ & H)].
       * exfalso. apply check_all_panic in H. destruct H as (a & _ & H). exact (check_no_panic _ _ _ H).
       * apply bind_panic in H. destruct H as [H|(u' & _ & H)]; [|exfalso; exact (answer_no_panic _ _ H)].
@@ -588,16 +786,33 @@ Proof.
     destruct (cur w); [|discriminate]. destruct (get_tx_history_panic _ _ _ _ Hhb H) as (Hf & _).
     rewrite (get_tx_history_site _ _ _ _ H).
     exact Hf.
+  - (* CreateBindingTransaction *) destruct (cur w); [|discriminate]. exact (wm_auto_create_panic _ _ _ _ _ Hw Hsel H).
+  - (* CreatePoolPkCoinbaseTransaction *) destruct (cur w); [|discriminate]. exact (wm_auto_create_panic _ _ _ _ _ Hw Hsel H).
+  - (* GetStakingHistory *) exfalso. exact (get_staking_history_no_panic _ _ _ _ H).
+  - (* GetBindingHistory *)
+    destruct (get_binding_history_panic _ _ _ _ Hrows H) as ([-> | ->] & Hf & _); exact Hf.
+  - (* SendRawTransaction *)
+    destruct (decode_hex_str hex); [|discriminate]. destruct (e_decode_tx e l); [|discriminate].
+    exfalso. exact (answer_no_panic _ _ H).
+  - (* CheckTargetBinding *)
+    exfalso. apply check_all_panic in H. destruct H as (t & _ & H). exact (check_target_no_panic _ _ _ _ _ H).
+  - (* GetBlockByHeight *)
+    destruct (e_block e) as [b|] eqn:E; [|discriminate]. exfalso. exact (marshal_block_no_panic _ _ (Hblk _ eq_refl) H).
+  - (* GetBestBlock *)
+    destruct (e_block e) as [b|] eqn:E; [|discriminate]. exfalso. exact (marshal_block_no_panic _ _ (Hblk _ eq_refl) H).
+  - (* GetBlockStakingReward *)
+    destruct (e_best e <? height); [discriminate|]. destruct (e_reward e) as [[n nout]|] eqn:E; [|discriminate].
+    exfalso. apply bind_panic in H. destruct H as [H|(u & _ & H)]; [exact (reward_outs_no_panic _ _ _ (Hrew _ _ eq_refl) H)|exact (answer_no_panic _ _ H)].
 Qed.
 
 (* a panic can only come from a site whose switch is off *)
-Theorem handle_panic_only_unfixed trim fx e w r p :
+Theorem handle_panic_only_unfixed trim cd fx e w r p :
   wf w -> wf_env e -> selected_ok w e -> req_ok r ->
-  handle trim fx e w r = Panic p -> guarded_by fx p = false.
+  handle trim cd fx e w r = Panic p -> guarded_by fx p = false.
 Proof.
   intros Hw He Hs Hr H. unfold handle in H. apply bind_panic in H. destruct H as [H|(u & _ & H)].
-  - exfalso. exact (prologue_no_panic _ _ _ H).
-  - exact (deep_panic_only_unfixed _ _ _ _ _ _ Hw He Hs Hr H).
+  - exfalso. exact (prologue_no_panic _ _ _ _ H).
+  - exact (deep_panic_only_unfixed _ _ _ _ _ _ _ Hw He Hs Hr H).
 Qed.
 
 Lemma guarded_all_fixed p : guarded_by all_fixed p = true.
@@ -606,15 +821,21 @@ Proof. destruct p; reflexivity. Qed.
 (* C19 for the repaired code: every request is answered or rejected, in every well-formed state,
    whether or not a wallet is selected, whatever the background tasks do to the current keystore
    between two reads (cur2), whether or not the task queue exists yet *)
-Theorem handle_no_panic trim e w r p :
-  wf w -> wf_env e -> selected_ok w e -> req_ok r -> handle trim all_fixed e w r <> Panic p.
+Theorem handle_no_panic trim cd e w r p :
+  wf w -> wf_env e -> selected_ok w e -> req_ok r -> handle trim cd all_fixed e w r <> Panic p.
 Proof.
-  intros Hw He Hs Hr H. pose proof (handle_panic_only_unfixed _ _ _ _ _ _ Hw He Hs Hr H) as G.
+  intros Hw He Hs Hr H. pose proof (handle_panic_only_unfixed _ _ _ _ _ _ _ Hw He Hs Hr H) as G.
   rewrite guarded_all_fixed in G. discriminate.
 Qed.
 
+Lemma bind_details_ext fx fx' rows :
+  fx_bindhist_hash fx = fx_bindhist_hash fx' -> bind_details fx rows = bind_details fx' rows.
+Proof.
+  intros E. induction rows as [|r rest IH]; [reflexivity|]. cbn [bind_details]. rewrite IH. unfold bind_detail. rewrite E. reflexivity.
+Qed.
+
 (* the API proper (gRPC requests, sequential use, task queue created): the code as found could only
-   panic at the three pending-input sites *)
+   panic at the three pending-input sites and in GetBindingHistory *)
 Definition api_request (r : request) : Prop :=
   match r with
   | RGetAllAddressesWithPubkey | RWmCreateRawTransaction _ _ _ | RWmEstimateManualTxFee _ | RWmGetTxHistory _ => False
@@ -622,17 +843,19 @@ Definition api_request (r : request) : Prop :=
   | _ => True
   end.
 
-Theorem api_as_found_panics_only_at_pending_sites trim e w r p :
+Theorem api_as_found_panics_only_at_pending_sites trim cd e w r p :
   wf w -> wf_env e -> selected_ok w e -> req_ok r -> api_request r ->
   sequential w -> taskchan w = true ->
-  handle trim as_found e w r = Panic p -> p = PCtiIndex \/ p = PCtiBlockNil \/ p = PSignMetaNil.
+  handle trim cd as_found e w r = Panic p ->
+  p = PCtiIndex \/ p = PCtiBlockNil \/ p = PSignMetaNil \/ p = PBindHistIndex \/ p = PBindHistTargetNil \/ p = PCurEvictedNil.
 Proof.
   intros Hw He Hs Hr Ha (Hseq & Hseq3) Htc H.
   (* re-run the analysis with the switches of the sites that cannot fire here turned on *)
   set (fx := {| fx_cti_index := false; fx_cti_block := false; fx_cti_dup := false; fx_senders := true; fx_sign_meta := false; fx_sign_len0 := false;
-                fx_cur_nil := true; fx_cur3_nil := true; fx_import_rec := true; fx_taskchan := true; fx_select_neg := true |}).
-  assert (E : handle trim as_found e w r = handle trim fx e w r).
-  { unfold handle. destruct (prologue trim r) eqn:P; cbn [bind]; try reflexivity.
+                fx_cur_nil := true; fx_cur3_nil := true; fx_import_rec := true; fx_taskchan := true; fx_select_neg := true;
+                fx_cur_evicted := false; fx_bindhist_hash := false |}).
+  assert (E : handle trim cd as_found e w r = handle trim cd fx e w r).
+  { unfold handle. destruct (prologue trim cd r) eqn:P; cbn [bind]; try reflexivity.
     destruct (cur w) as [c|] eqn:C.
     - (* a wallet is selected: both reads see it *)
       assert (Hc2 : forall q, script_address_scan q as_found w = script_address_scan q fx w).
@@ -674,9 +897,11 @@ Proof.
         destruct senders as [|s0 ss]; [congruence|].
         change (fx_senders as_found && null (s0 :: ss)) with false. change (fx_senders fx && null (s0 :: ss)) with false.
         destruct (parse_inputs inputs); [rewrite Hest|]; reflexivity. }
+      assert (Hbd : forall rows, bind_details as_found rows = bind_details fx rows).
+      { intros rows. apply bind_details_ext. reflexivity. }
       destruct r; cbn [deep api_request] in *; try contradiction; try reflexivity;
-        unfold task_queue, wm_balance, wm_auto_create, wm_sign_raw_tx, estimate_manual_tx_fee;
-        rewrite ?Htc, ?C, ?Hc2, ?Hfe, ?Hest, ?Hadd, ?Hsign; try reflexivity.
+        unfold auto_tx, get_binding_history, task_queue, wm_balance, wm_auto_create, wm_sign_raw_tx, estimate_manual_tx_fee;
+        rewrite ?Htc, ?C, ?Hc2, ?Hfe, ?Hest, ?Hadd, ?Hsign, ?Hbd; try reflexivity.
       + (* TxHistory *) unfold get_tx_history. cbn [fx_select_neg as_found fx andb].
         destruct (count =? 0) eqn:Z0; [reflexivity|]. destruct (count <? 0) eqn:N; bool_hyps; [lia|reflexivity].
       + (* CreateRawTransaction *)
@@ -693,10 +918,10 @@ Proof.
         destruct (negb (valid_flag (if null flags then [65; 76; 76] else flags))); [reflexivity|]. apply Hsign.
     - (* no wallet selected: every modelled path answers ErrNoWalletInUse before it reads the store *)
       destruct r; cbn [deep api_request] in *; try contradiction; try reflexivity;
-        unfold task_queue, wm_balance, wm_auto_create, wm_sign_raw_tx, wm_create_raw_transaction, construct_tx_in;
+        unfold auto_tx, get_binding_history, task_queue, wm_balance, wm_auto_create, wm_sign_raw_tx, wm_create_raw_transaction, construct_tx_in;
         rewrite ?Htc, ?C; try reflexivity. }
-  rewrite E in H. pose proof (handle_panic_only_unfixed _ _ _ _ _ _ Hw He Hs Hr H) as G.
-  destruct p; cbn in G; try discriminate; auto.
+  rewrite E in H. pose proof (handle_panic_only_unfixed _ _ _ _ _ _ _ Hw He Hs Hr H) as G.
+  destruct p; cbn in G; try discriminate; tauto.
 Qed.
 
 (* ---------------------------------------------------------------- witnesses for the code as found *)
@@ -711,11 +936,11 @@ Definition store0 : store :=
      st_unmined := fun h => if (h =? 1)%N then Some tx_pending else None;
      st_utxo := fun h i => if (h =? 1)%N && (0 <=? i) && (i <? 2) then Some false
                            else if (h =? 2)%N && (i =? 0) then Some false else None |}.
-Definition w_sel : wst := {| cur := Some 5%N; cur2 := Some 5%N; cur3 := Some 5%N; st := store0; taskchan := true |}.
-Definition w_none : wst := {| cur := None; cur2 := None; cur3 := None; st := store0; taskchan := true |}.
-Definition w_race : wst := {| cur := Some 5%N; cur2 := None; cur3 := None; st := store0; taskchan := true |}.       (* removal completed between the first two reads *)
-Definition w_race3 : wst := {| cur := Some 5%N; cur2 := Some 5%N; cur3 := None; st := store0; taskchan := true |}.  (* … after the store was read *)
-Definition w_starting : wst := {| cur := None; cur2 := None; cur3 := None; st := store0; taskchan := false |}.      (* worker() not yet scheduled *)
+Definition w_sel : wst := {| cur := Some 5%N; cur2 := Some 5%N; cur3 := Some 5%N; st := store0; taskchan := true; evicted := false |}.
+Definition w_none : wst := {| cur := None; cur2 := None; cur3 := None; st := store0; taskchan := true; evicted := false |}.
+Definition w_race : wst := {| cur := Some 5%N; cur2 := None; cur3 := None; st := store0; taskchan := true; evicted := false |}.       (* removal completed between the first two reads *)
+Definition w_race3 : wst := {| cur := Some 5%N; cur2 := Some 5%N; cur3 := None; st := store0; taskchan := true; evicted := false |}.  (* … after the store was read *)
+Definition w_starting : wst := {| cur := None; cur2 := None; cur3 := None; st := store0; taskchan := false; evicted := false |}.      (* worker() not yet scheduled *)
 
 Lemma wf_store0 : wf_store store0.
 Proof.
@@ -733,11 +958,46 @@ Proof.
 Qed.
 
 Definition txid_of (n : Z) : str := repeat 48 63 ++ [48 + n].      (* 64 characters *)
+(* a served block: a coinbase, a transaction spending output 1 of a two-output transaction *)
+Definition bin_ok : bin := {| bi_prev := Some 2; bi_index := 1; bi_game := false; bi_addr_ok := true |}.
+Definition btx_cb : btx := {| bt_coinbase := true; bt_game_out := false; bt_ins := [ {| bi_prev := None; bi_index := 4294967295; bi_game := false; bi_addr_ok := false |} ];
+                              bt_vout_ok := true; bt_rest_ok := true |}.
+Definition btx_std : btx := {| bt_coinbase := false; bt_game_out := false; bt_ins := [bin_ok]; bt_vout_ok := true; bt_rest_ok := true |}.
+(* a mined binding deposit at output 1 of a two-output transaction the node still has *)
+Definition row_ok : bind_row :=
+  {| br_mined := true; br_vout := 1; br_same := true; br_tx := Some [Some false; Some true]; br_amount := 100000000;
+     br_coinbase := false; br_ins := [bin_ok] |}.
 Definition env0 : env :=
   {| e_rest_ok := true; e_decode_tx := fun _ => Some [(1%N, 0)]; e_sign_ok := true; e_selected := [];
-     e_next_addr := Some [tt]; e_history_batches := [[2]] |}.
+     e_next_addr := Some [tt]; e_history_batches := [[2]];
+     e_block := Some [btx_cb; btx_std]; e_rawtx := Some btx_std; e_best := 10; e_reward := Some (1, 2);
+     e_stake_rows := [204800000000]; e_bind_rows := [row_ok] |}.
+Lemma wf_bin_ok : wf_bin bin_ok.
+Proof. intros n H. inversion H; subst. cbn. lia. Qed.
+Lemma wf_btx_std : wf_btx btx_std.
+Proof. constructor; [exact wf_bin_ok|constructor]. Qed.
+Lemma wf_btx_cb : wf_btx btx_cb.
+Proof. constructor; [intros n H; discriminate|constructor]. Qed.
+Lemma wf_row_ok : wf_bind_row row_ok.
+Proof.
+  split; [constructor; [exact wf_bin_ok|constructor]|]. intros _ t H. inversion H; subst. cbn. split; [lia|reflexivity].
+Qed.
 Lemma wf_env0 : wf_env env0.
-Proof. split; [intros mas H; inversion H; reflexivity|repeat constructor; lia]. Qed.
+Proof.
+  split; [intros mas H; inversion H; reflexivity|]. split; [repeat constructor; lia|].
+  split; [intros b H; inversion H; subst; constructor; [exact wf_btx_cb|constructor; [exact wf_btx_std|constructor]]|].
+  split; [intros t H; inversion H; subst; exact wf_btx_std|].
+  split; [intros n nout H; inversion H; subst; lia|].
+  constructor; [exact wf_row_ok|constructor].
+Qed.
+(* the address codec of the witnesses: "m" a standard address, "s" a staking address, "t" a binding target, "p" a pubkey hash *)
+Definition cd0 : codecs :=
+  {| c_addr := fun s => match s with
+                        | [109] => AWitness 0 0 | [115] => AWitness 0 1 | [116] => ABindingTarget | [112] => APubKeyHash
+                        | [120] => AOther 33
+                        | _ => ADecErr
+                        end;
+     c_payload_pool := fun raw => match raw with [] => false | _ => true end |}.
 Lemma selected_ok0 w : selected_ok w env0.
 Proof. intros h i []. Qed.
 
@@ -754,20 +1014,20 @@ Definition req_sign_meta : request := RSignRawTransaction [48; 48] pass6 [].
 
 Theorem as_found_refuted :
   wf w_sel /\ sequential w_sel /\ wf_env env0 /\
-  handle id_trim as_found env0 w_sel req_cti_index = Panic PCtiIndex /\
-  handle id_trim as_found env0 w_sel req_cti_block = Panic PCtiBlockNil /\
-  handle id_trim as_found env0 w_sel req_sign_meta = Panic PSignMetaNil /\
+  handle id_trim cd0 as_found env0 w_sel req_cti_index = Panic PCtiIndex /\
+  handle id_trim cd0 as_found env0 w_sel req_cti_block = Panic PCtiBlockNil /\
+  handle id_trim cd0 as_found env0 w_sel req_sign_meta = Panic PSignMetaNil /\
   (* WalletManager level *)
-  handle id_trim as_found env0 w_sel (RWmCreateRawTransaction [] 1 true) = Panic PSenders0 /\
-  handle id_trim as_found env0 w_none (RWmEstimateManualTxFee [ {| in_txid := [50]; in_vout := 0 |} ]) = Panic PExistsTxCurNil /\
-  handle id_trim as_found env0 w_sel (RWmGetTxHistory (-1)) = Panic PSelectSlice /\
+  handle id_trim cd0 as_found env0 w_sel (RWmCreateRawTransaction [] 1 true) = Panic PSenders0 /\
+  handle id_trim cd0 as_found env0 w_none (RWmEstimateManualTxFee [ {| in_txid := [50]; in_vout := 0 |} ]) = Panic PExistsTxCurNil /\
+  handle id_trim cd0 as_found env0 w_sel (RWmGetTxHistory (-1)) = Panic PSelectSlice /\
   (* the background removal completes between two reads of the current keystore *)
-  handle id_trim as_found env0 w_race (RGetWalletBalance 1 true) = Panic PBalanceCurNil /\
-  handle id_trim as_found env0 w_race (RGetUtxo []) = Panic PUnspentsCurNil /\
-  handle id_trim as_found env0 w_race req_sign_meta = Panic PExistsTxCurNil /\
-  handle id_trim as_found env0 w_race RGetAllAddressesWithPubkey = Panic PPubkeyCurNil /\
+  handle id_trim cd0 as_found env0 w_race (RGetWalletBalance 1 true) = Panic PBalanceCurNil /\
+  handle id_trim cd0 as_found env0 w_race (RGetUtxo []) = Panic PUnspentsCurNil /\
+  handle id_trim cd0 as_found env0 w_race req_sign_meta = Panic PExistsTxCurNil /\
+  handle id_trim cd0 as_found env0 w_race RGetAllAddressesWithPubkey = Panic PPubkeyCurNil /\
   (* a request before the worker goroutine created the task queue *)
-  handle id_trim as_found env0 w_starting (RImportWallet [123; 125] pass6) = Panic PTaskChanNil /\
+  handle id_trim cd0 as_found env0 w_starting (RImportWallet [123; 125] pass6) = Panic PTaskChanNil /\
   (* the import task meets a transaction the index lists but the script reader does not accept *)
   async_import as_found [ImpRelevant; ImpNotRelevant] = Panic PImportRecNil.
 Proof.
@@ -777,13 +1037,13 @@ Qed.
 
 (* the same requests on the repaired code are answered *)
 Theorem witnesses_fixed :
-  handle id_trim all_fixed env0 w_sel req_cti_index = Err ErrBelow /\
-  handle id_trim all_fixed env0 w_sel req_cti_block = Err ErrBelow /\   (* the fee estimate looks in the mined bucket only *)
-  handle id_trim all_fixed env0 w_sel req_sign_meta = Ok tt /\
-  handle id_trim all_fixed env0 w_sel (RWmCreateRawTransaction [] 1 true) = Err ErrBelow /\
-  handle id_trim all_fixed env0 w_race (RGetWalletBalance 1 true) = Err ErrBelow /\
-  handle id_trim all_fixed env0 w_starting (RImportWallet [123; 125] pass6) = Ok tt /\
-  handle id_trim all_fixed env0 w_sel (RWmGetTxHistory (-1)) = Ok tt /\
+  handle id_trim cd0 all_fixed env0 w_sel req_cti_index = Err ErrBelow /\
+  handle id_trim cd0 all_fixed env0 w_sel req_cti_block = Err ErrBelow /\   (* the fee estimate looks in the mined bucket only *)
+  handle id_trim cd0 all_fixed env0 w_sel req_sign_meta = Ok tt /\
+  handle id_trim cd0 all_fixed env0 w_sel (RWmCreateRawTransaction [] 1 true) = Err ErrBelow /\
+  handle id_trim cd0 all_fixed env0 w_race (RGetWalletBalance 1 true) = Err ErrBelow /\
+  handle id_trim cd0 all_fixed env0 w_starting (RImportWallet [123; 125] pass6) = Ok tt /\
+  handle id_trim cd0 all_fixed env0 w_sel (RWmGetTxHistory (-1)) = Ok tt /\
   async_import all_fixed [ImpRelevant; ImpNotRelevant] = Ok tt.
 Proof. repeat split; vm_compute; reflexivity. Qed.
 
@@ -818,17 +1078,112 @@ Proof. apply idx_in_bounds. Qed.
 (* the removal completes AFTER the store was read: the late reads of the current keystore *)
 Definition env_sel : env :=
   {| e_rest_ok := true; e_decode_tx := fun _ => Some [(2%N, 0)]; e_sign_ok := true; e_selected := [(2%N, 0)];
-     e_next_addr := Some [tt]; e_history_batches := [] |}.
+     e_next_addr := Some [tt]; e_history_batches := [];
+     e_block := None; e_rawtx := None; e_best := 0; e_reward := None; e_stake_rows := []; e_bind_rows := [] |}.
 Lemma selected_ok_sel w : st w = store0 -> selected_ok w env_sel.
 Proof. intros E h i [H|[]]. inversion H; subst. rewrite E. cbn. eauto. Qed.
 
 Theorem as_found_refuted_late_reads :
   wf w_race3 /\ selected_ok w_race3 env_sel /\
-  handle id_trim as_found env_sel w_race3 (RAutoCreateTransaction one_mass 0 [] [] []) = Panic PFindMaNil /\
-  handle id_trim as_found env_sel w_race3 req_sign_meta = Panic PSignScriptCurNil /\
-  handle id_trim all_fixed env_sel w_race3 (RAutoCreateTransaction one_mass 0 [] [] []) = Err ErrBelow /\
-  handle id_trim all_fixed env_sel w_race3 req_sign_meta = Err ErrBelow.
+  handle id_trim cd0 as_found env_sel w_race3 (RAutoCreateTransaction one_mass 0 [] [] []) = Panic PFindMaNil /\
+  handle id_trim cd0 as_found env_sel w_race3 req_sign_meta = Panic PSignScriptCurNil /\
+  handle id_trim cd0 all_fixed env_sel w_race3 (RAutoCreateTransaction one_mass 0 [] [] []) = Err ErrBelow /\
+  handle id_trim cd0 all_fixed env_sel w_race3 req_sign_meta = Err ErrBelow.
 Proof.
   split; [exact wf_store0|]. split; [apply selected_ok_sel; reflexivity|].
   repeat split; vm_compute; reflexivity.
+Qed.
+
+(* ---------------------------------------------------------------- GetBindingHistory while the wallet lags behind a reorganisation of the node *)
+(* the wallet recorded a binding deposit at output 1 of a transaction at (height, location); the node has
+   reorganised and now holds, at the same height and location, a transaction with one output (row_lag1) resp.
+   a transaction whose output 1 is an ordinary script (row_lag2); the wallet has not processed the new chain yet *)
+Definition row_lag1 : bind_row :=
+  {| br_mined := true; br_vout := 1; br_same := false; br_tx := Some [Some false]; br_amount := 100000000;
+     br_coinbase := false; br_ins := [bin_ok] |}.
+Definition row_lag2 : bind_row :=
+  {| br_mined := true; br_vout := 1; br_same := false; br_tx := Some [Some true; Some false]; br_amount := 100000000;
+     br_coinbase := false; br_ins := [bin_ok] |}.
+Definition env_lag (r : bind_row) : env :=
+  {| e_rest_ok := true; e_decode_tx := fun _ => None; e_sign_ok := true; e_selected := [];
+     e_next_addr := Some [tt]; e_history_batches := [];
+     e_block := None; e_rawtx := None; e_best := 0; e_reward := None; e_stake_rows := []; e_bind_rows := [row_ok; r] |}.
+
+Lemma wf_env_lag r : br_mined r = true -> br_same r = false -> br_ins r = [bin_ok] -> wf_env (env_lag r).
+Proof.
+  intros Hm Hs Hi. split; [intros mas H; inversion H; reflexivity|]. split; [constructor|].
+  split; [intros b H; discriminate|]. split; [intros t H; discriminate|]. split; [intros n nout H; discriminate|].
+  constructor; [exact wf_row_ok|]. constructor; [|constructor].
+  split; [rewrite Hi; constructor; [exact wf_bin_ok|constructor]|].
+  intros [H|H]; congruence.
+Qed.
+
+Theorem bind_history_as_found_refuted :
+  wf w_sel /\ sequential w_sel /\ wf_env (env_lag row_lag1) /\ wf_env (env_lag row_lag2) /\
+  handle id_trim cd0 as_found (env_lag row_lag1) w_sel (RGetBindingHistory []) = Panic PBindHistIndex /\
+  handle id_trim cd0 as_found (env_lag row_lag2) w_sel (RGetBindingHistory []) = Panic PBindHistTargetNil /\
+  handle id_trim cd0 current_code (env_lag row_lag1) w_sel (RGetBindingHistory []) = Panic PBindHistIndex /\
+  handle id_trim cd0 current_code (env_lag row_lag2) w_sel (RGetBindingHistory []) = Panic PBindHistTargetNil /\
+  (* repaired: the rows whose transaction is gone are left out, the others are reported *)
+  handle id_trim cd0 all_fixed (env_lag row_lag1) w_sel (RGetBindingHistory []) = Ok tt /\
+  handle id_trim cd0 all_fixed (env_lag row_lag2) w_sel (RGetBindingHistory []) = Ok tt.
+Proof.
+  split; [exact wf_store0|]. split; [split; reflexivity|].
+  split; [apply wf_env_lag; reflexivity|]. split; [apply wf_env_lag; reflexivity|].
+  repeat split; vm_compute; reflexivity.
+Qed.
+
+(* the code as it stands: every switch but the one of GetBindingHistoryDetail is in the repaired position *)
+Lemma current_code_switches :
+  current_code = {| fx_cti_index := true; fx_cti_block := true; fx_cti_dup := true; fx_senders := true; fx_sign_meta := true; fx_sign_len0 := true;
+                    fx_cur_nil := true; fx_cur3_nil := true; fx_import_rec := true; fx_taskchan := true; fx_select_neg := true;
+                    fx_cur_evicted := false; fx_bindhist_hash := false |}.
+Proof. reflexivity. Qed.
+
+(* the code as it stands can panic only at the two sites of GetBindingHistory and at the cache look-up of ValidateAddress *)
+Theorem current_code_panics_only_at_known_sites trim cd e w r p :
+  wf w -> wf_env e -> selected_ok w e -> req_ok r ->
+  handle trim cd current_code e w r = Panic p -> p = PBindHistIndex \/ p = PBindHistTargetNil \/ p = PCurEvictedNil.
+Proof.
+  intros Hw He Hs Hr H.
+  pose proof (handle_panic_only_unfixed _ _ _ _ _ _ _ Hw He Hs Hr H) as G.
+  destruct p; cbn in G; try discriminate; auto.
+Qed.
+
+(* ... and GetBindingHistory panics only with the unrepaired code and only while a mined row's transaction is no
+   longer where the wallet recorded it (the node reorganised, the wallet has not followed yet) *)
+Theorem binding_history_panic_needs_lagging_row trim cd fx e w t p :
+  wf_env e -> handle trim cd fx e w (RGetBindingHistory t) = Panic p ->
+  (p = PBindHistIndex \/ p = PBindHistTargetNil) /\ fx_bindhist_hash fx = false /\
+  exists row, In row (e_bind_rows e) /\ br_mined row = true /\ br_same row = false.
+Proof.
+  intros (_ & _ & _ & _ & _ & Hrows) H. unfold handle in H. cbn [prologue bind deep] in H.
+  exact (get_binding_history_panic _ _ _ _ Hrows H).
+Qed.
+
+(* ---------------------------------------------------------------- ValidateAddress after the keystore cache lost the selected keystore *)
+(* the database is failing (after Stop): NewAddress fails, drops the cached keystore by name in order to reload it, and the
+   reload fails too, while km.currentKeystore keeps naming the keystore *)
+Definition w_evicted : wst := {| cur := None; cur2 := None; cur3 := None; st := store0; taskchan := true; evicted := true |}.
+
+Theorem cur_evicted_refuted :
+  wf w_evicted /\ wf_env env0 /\
+  handle id_trim cd0 as_found env0 w_evicted (RValidateAddress [109]) = Panic PCurEvictedNil /\
+  handle id_trim cd0 current_code env0 w_evicted (RValidateAddress [109]) = Panic PCurEvictedNil /\
+  handle id_trim cd0 all_fixed env0 w_evicted (RValidateAddress [109]) = Err ErrAPINoWalletInUse /\
+  (* an address that does not decode is answered before the keystore is consulted; the other requests see "no wallet in use" *)
+  handle id_trim cd0 as_found env0 w_evicted (RValidateAddress [122]) = Ok tt /\
+  handle id_trim cd0 as_found env0 w_evicted (RGetWalletBalance 1 true) = Err ErrAPINoWalletInUse.
+Proof. split; [exact wf_store0|]. split; [exact wf_env0|]. repeat split; vm_compute; reflexivity. Qed.
+
+Theorem validate_address_panic_needs_evicted trim cd fx e w a p :
+  handle trim cd fx e w (RValidateAddress a) = Panic p ->
+  p = PCurEvictedNil /\ fx_cur_evicted fx = false /\ evicted w = true.
+Proof.
+  intros H. unfold handle in H. apply bind_panic in H. destruct H as [H|(u & _ & H)]; [exfalso; exact (prologue_no_panic _ _ _ _ H)|].
+  cbn [deep] in H. unfold validate_address in H.
+  destruct (c_addr cd a); try discriminate;
+    (destruct (negb (evicted w) && match cur w with None => true | Some _ => false end); [discriminate|];
+     match type of H with (if ?c then _ else _) = _ => destruct c; [discriminate|] end;
+     destruct (evicted w); [destruct (fx_cur_evicted fx); [discriminate|inversion H; auto]|discriminate]).
 Qed.
